@@ -21,3 +21,15 @@ Definition least_fitting (val : list Z) (b2 v : Z) : Prop :=
   In v val /\ b2 <= 2 * v /\ forall w, In w val -> b2 <= 2 * w -> v <= w.
 (** the bond sum fits within the largest valence of the row *)
 Definition fits (val : list Z) (b2 : Z) : Prop := exists w, In w val /\ b2 <= 2 * w.
+
+(** the stronger part of the contract of `correct_aromatic_rings` (evaluated on every recorded transcript by
+    ./check C09): every bond order is a number, and a half-integral one (1.5, the aromatic bond) only joins
+    two atoms that are both flagged aromatic *)
+Definition is_arom (a : attrs) : bool := truthy (getd (S "aromatic") a (VBool false)).
+Definition arom_of (g : graph) (k : Z) : bool := match gfind k g with Some n => is_arom (na n) | None => false end.
+Definition arom_contractb (g : graph) : bool :=
+  forallb (fun n => forallb (fun wa : Z * attrs =>
+                      match order_half (snd wa) with
+                      | Ok h => Z.even h || (is_arom (na n) && arom_of g (fst wa))
+                      | Err _ => false
+                      end) (nadj n)) g.
